@@ -415,6 +415,122 @@ func gaussianPreconditions(c *core.Ctx, r *core.Report) {
 	}
 }
 
+// wrappingOrder: in every function that builds api.Rates, the rate handed to NewDistribution is the result of WithJitter
+// (applied to the profile's own rate function) and Rates.Rate is NewDistribution's rate result.
+func wrappingOrder(c *core.Ctx, r *core.Report) {
+	n := 0
+	for _, fn := range c.AllFuncs {
+		if !strings.HasPrefix(core.RelPkg(fn), "internal/trigger/") {
+			continue
+		}
+		for _, call := range an.AllCalls(fn) {
+			nd, ok := call.(*ssa.Call)
+			if !ok || !an.IsFunc(an.Callee(nd), apiPkg, "NewDistribution") {
+				continue
+			}
+			n++
+			key := core.FuncName(fn) + "#wrapping"
+			// the rate argument
+			var rateArg ssa.Value
+			for _, a := range nd.Call.Args {
+				if an.IsNamed(a.Type(), apiPkg, "RateFunction") {
+					rateArg = a
+				}
+			}
+			wj, isWJ := an.Strip(rateArg).(*ssa.Call)
+			okIn := isWJ && an.IsFunc(an.Callee(wj), apiPkg, "WithJitter")
+			// nothing wraps the distributed rate again
+			okOut := true
+			for _, ref := range an.Referrers(nd) {
+				ex, isEx := ref.(*ssa.Extract)
+				if !isEx || ex.Index != 1 {
+					continue
+				}
+				for _, use := range an.Referrers(ex) {
+					if uc, isCall := use.(*ssa.Call); isCall && an.IsFunc(an.Callee(uc), apiPkg, "WithJitter") {
+						okOut = false
+					}
+				}
+			}
+			r.Check(okIn && okOut, key, an.Pos(c, nd), "NewDistribution(…, WithJitter(profile, jitter)): jitter inside, distribution outside", "the distribution is not applied on top of the jittered rate (jitter is applied per sub-tick, or not at all): the carried remainder and the once-per-cycle evaluation are lost")
+		}
+	}
+	r.Floor("NewDistribution call sites", n, 4)
+}
+
+func isMethodOf(f *ssa.Function, pkg, typ string) bool {
+	if f == nil || f.Signature.Recv() == nil {
+		return false
+	}
+	return an.IsNamed(f.Signature.Recv().Type(), pkg, typ)
+}
+
+// errBeforeUse implements C14.R12.
+func errBeforeUse(c *core.Ctx, r *core.Report) {
+	n, bad := 0, 0
+	for _, fn := range c.AllFuncs {
+		if !inputFacing(fn) {
+			continue
+		}
+		for _, ci := range an.AllCalls(fn) {
+			call, ok := ci.(*ssa.Call)
+			if !ok {
+				continue
+			}
+			res := call.Call.Signature().Results()
+			if res.Len() < 2 || !types.Identical(res.At(res.Len()-1).Type(), types.Universe.Lookup("error").Type()) {
+				continue
+			}
+			// only results computed by module code: library results are documented per function
+			if t := an.Callee(call); t == nil || !core.InModule(t) {
+				continue
+			}
+			for _, ref := range an.Referrers(call) {
+				ex, isEx := ref.(*ssa.Extract)
+				if !isEx || ex.Index == res.Len()-1 {
+					continue
+				}
+				switch ex.Type().Underlying().(type) {
+				case *types.Pointer, *types.Slice, *types.Map, *types.Interface, *types.Signature:
+				default:
+					continue
+				}
+				for _, use := range an.Referrers(ex) {
+					deref := false
+					switch u := use.(type) {
+					case *ssa.FieldAddr, *ssa.IndexAddr, *ssa.Index, *ssa.Lookup, *ssa.Field:
+						deref = true
+					case *ssa.UnOp:
+						deref = u.Op == token.MUL
+					case ssa.CallInstruction:
+						// called on it (receiver) or called itself
+						cc := u.Common()
+						deref = cc.Value == ssa.Value(ex) || (len(cc.Args) > 0 && cc.Args[0] == ssa.Value(ex) && cc.Signature().Recv() != nil)
+					}
+					if !deref {
+						continue
+					}
+					n++
+					guarded := false
+					for _, g := range an.GuardsOf(use.Block()) {
+						if errNilGuard(g, call) {
+							guarded = true
+						}
+					}
+					if !guarded {
+						bad++
+						r.Violation(core.FuncName(fn)+"#use-before-err@"+an.D().Of(call.Call.Value), an.Pos(c, use), "the result of %s is used here before its error was tested nil: when the input is rejected the result is nil and this panics instead of returning the error", an.D().Of(call.Call.Value))
+					}
+				}
+			}
+		}
+	}
+	if bad == 0 {
+		r.OK("input-facing#use-after-err", "-", "%d uses of results returned with an error, each after the error was tested nil", n)
+	}
+	r.Floor("uses of results returned with an error", n, 5)
+}
+
 // limitPlumbing: the plain uint64 field of PoolManager (the limit the refusal predicate of C03.R2 compares with) is
 // only ever set from a constructor parameter, and every constructor call passes a RunOptions.MaxIterations.
 func limitPlumbing(c *core.Ctx, r *core.Report) {
@@ -574,6 +690,62 @@ func init() {
 		})
 	})
 	imported("C14", "C14.R11", "a gaussian trigger built from accepted input has a finite, non-negative rate (shared with C11.R6)", "C11", []string{"C11.R6"}, nil, 1)
+	extra["C13"] = append(extra["C13"], func(c *core.Ctx, r *core.Report) {
+		rule(r, "C13.R5", "a stage without any jitter setting runs with zero jitter (the identity): the value a validator allocates for a missing jitter is the constant 0; and every Calculate*Rate applies jitter to the per-cycle rate before the distribution spreads it (so that the carry advances once per cycle)", func() {
+			n := 0
+			for _, fn := range c.AllFuncs {
+				if core.RelPkg(fn) != "internal/trigger/file" {
+					continue
+				}
+				an.Instrs(fn, func(in ssa.Instruction) {
+					st, ok := in.(*ssa.Store)
+					if !ok {
+						return
+					}
+					fld := an.FieldOfAddr(st.Addr)
+					al, isAl := st.Val.(*ssa.Alloc)
+					if fld == nil || fld.Name() != "Jitter" || !isAl {
+						return
+					}
+					n++
+					okZero := true
+					for _, init := range an.StoresTo(al) {
+						k, isK := init.Val.(*ssa.Const)
+						if !isK || k.Value == nil || k.Float64() != 0 {
+							okZero = false
+						}
+					}
+					r.Check(okZero, core.FuncName(fn)+"#missing-jitter=0", an.Pos(c, in), "missing jitter defaults to 0", "a stage without a jitter setting gets a non-zero jitter: zero jitter is no longer the identity for it")
+				})
+			}
+			r.Floor("default jitter allocations", n, 4)
+			wrappingOrder(c, r)
+		})
+	})
+	imported("C12", "C12.R6", "the distribution wraps the jittered rate, not the other way round: the underlying (jittered) rate is evaluated once per cycle (shared with C13.R5)", "C13", []string{"C13.R5"}, keyContains("#wrapping"), 4)
+	extra["C19"] = append(extra["C19"], func(c *core.Ctx, r *core.Report) {
+		rule(r, "C19.R6", "building the view data never fails: no index or slice expression in Result's methods or in the views package can be out of range (the bounding idioms of C14.R1)", func() {
+			boundsRuleFor(c, r, func(fn *ssa.Function) bool {
+				rel := core.RelPkg(fn)
+				if rel == "internal/run/views" {
+					return true
+				}
+				return rel == "internal/run" && isMethodOf(an.Outermost(fn), runPkg, "Result")
+			}, 1)
+		})
+	})
+	extra["C20"] = append(extra["C20"], func(c *core.Ctx, r *core.Report) {
+		rule(r, "C20.R5", "combining any number of components (also none) never indexes the component list out of range (the bounding idioms of C14.R1)", func() {
+			boundsRuleFor(c, r, func(fn *ssa.Function) bool {
+				return core.RelPkg(fn) == "pkg/f1" && an.Outermost(fn).Name() == "CombineScenarios"
+			}, 1)
+		})
+	})
+	extra["C14"] = append(extra["C14"], func(c *core.Ctx, r *core.Report) {
+		rule(r, "C14.R12", "in input-facing code a pointer, slice, map or interface returned together with an error is used (dereferenced, indexed, called on) only after that error was tested nil: a rejected input must come back as the error, not as a nil dereference", func() {
+			errBeforeUse(c, r)
+		})
+	})
 	extra["C05"] = append(extra["C05"], func(c *core.Ctx, r *core.Report) {
 		rule(r, "C05.R10", "the duration limit enforced is the configured one: RunOptions.MaxDuration comes from the --max-duration flag / the config file's max-duration", func() {
 			runOptionSources(c, r, []string{"MaxDuration"})
@@ -595,6 +767,15 @@ func init() {
 	imported("C12", "C12.R5", "a config-file stage runs the distributed rate with the tick interval returned with it (shared with C15.R3)", "C15", []string{"C15.R3"}, keyContains("rate-pair"), 1)
 	imported("C13", "C13.R4", "a config-file stage's own jitter is replaced by the default only when unset (shared with C15.R2)", "C15", []string{"C15.R2"}, keyContains("#Jitter←", "#inherits-Jitter"), 4)
 	imported("C17", "C17.R5", "lifetime figures are fed only from drained period figures; Snapshot and Total both go through the drain (shared with C01.R4, C01.R6)", "C01", []string{"C01.R4", "C01.R6"}, nil, 4)
+	imported("C17", "C17.R6", "stage timings recorded with T.Time go to their own stage series, not into the iteration series whose durations this property is about (shared with C16.R1)", "C16", []string{"C16.R1"}, keyContains("RecordIterationStage#WithLabelValues"), 1)
+	imported("C01", "C01.R11", "the outcome is read once, after the recovered body and before the cleanups (shared with C07.R4), and every iteration or drop is observed in the metric unless iteration metrics are disabled (shared with C16.R4)", "C07", []string{"C07.R4"}, keyContains("#outcome-read"), 1)
+	imported("C01", "C01.R12", "every iteration or drop handed to the metrics is observed unless iteration metrics are disabled (shared with C16.R4)", "C16", []string{"C16.R4"}, keyContains("#always-unless-disabled", "#at-most-one", "#observe-site"), 2)
+	imported("C03", "C03.R8", "in config-file mode the limit handed to the run is the file's max-iterations (shared with C15.R4)", "C15", []string{"C15.R4"}, keyContains("MaxIterations"), 1)
+	imported("C08", "C08.R8", "in config-file mode the tolerances handed to the run are the file's own (shared with C15.R4)", "C15", []string{"C15.R4"}, keyContains("axFailures", "IgnoreDropped"), 3)
+	imported("C05", "C05.R11", "in config-file mode the duration limit handed to the run is the file's max-duration (shared with C15.R4)", "C15", []string{"C15.R4"}, keyContains("MaxDuration"), 1)
+	imported("C04", "C04.R6", "in config-file mode the worker count handed to the run is the file's concurrency (shared with C15.R4)", "C15", []string{"C15.R4"}, keyContains("Concurrency"), 1)
+	imported("C11", "C11.R7", "a config-file gaussian stage runs the distributed rate with the tick interval returned with it (shared with C15.R3)", "C15", []string{"C15.R3"}, keyContains("rate-pair"), 1)
+	imported("C19", "C19.R5", "the banner is chosen by a verdict that is a function of the counts and options only (shared with C08.R1)", "C08", []string{"C08.R1"}, nil, 1)
 	imported("C18", "C18.R5", "the runner is stopped on every path after it was started (shared with C05.R3)", "C05", []string{"C05.R3"}, keyContains("progress-region", "progress-start"), 0)
 	imported("C20", "C20.R4", "a stop inside a component unwinds to the runner's frame: recover is called only by the classifier deferred from frames that call user code, and the pooled handle is fully reset between iterations (shared with C07.R4, C07.R6)", "C07", []string{"C07.R4", "C07.R6"}, nil, 3)
 }
